@@ -117,7 +117,7 @@ class SignalWindow(FragmentContract):
     including in_window == out_window (right_flank == 0) and odd differences; only complete tiles are kept."""
     qualname = 'tangermeme.match._extract_and_filter_chrom'
     props = ('C17',)
-    stmt_block = ('values = values[:values.shape[0] // in_window * in_window]', ('until', 'values = numpy.nansum('))
+    stmt_block = (('after', 'with pyBigWig.open('), ('before', 'idxs = idxs & (values <= signal_threshold)'))
     key = 'tangermeme.match._extract_and_filter_chrom#signal-window'
 
     def scopes(self, cfg):
